@@ -37,8 +37,11 @@ impl DiagnosticAction {
     }
 
     pub fn is_match(&self, is_disable: bool, range: &TextRange, code: &DiagnosticCode) -> bool {
-        if self.range.intersect(*range).is_none() {
-            return false;
+        // `TextRange::intersect` also accepts ranges that merely touch: a diagnostic starting at
+        // column 0 right after the action's last line is outside its scope.
+        match self.range.intersect(*range) {
+            Some(overlap) if !overlap.is_empty() || range.is_empty() => {}
+            _ => return false,
         }
 
         match (&self.kind, is_disable) {
